@@ -65,6 +65,7 @@ fn inv(op: &Op, _ctx: &dyn Context, operands: &mut dyn CoordinateSet) -> usize {
             let distance = geodesic[2];
             let return_azi = geodesic[3];
             operands.set_coord(i, &Coor4D::raw(coord[2], coord[3], return_azi, distance));
+            successes += 1;
             continue;
         }
 
